@@ -175,7 +175,13 @@ def run_rep(inp):
 
 def lean_rep(inp, obs):
     spec = H.lean_spec(inp["spec"])
-    spec.update(op="c05.run", q=[{"q": "gens"}, {"q": "asym"}] + [{"q": "word", "w": w["s"]} for w in inp["words"]])
+    q = [{"q": "gens"}, {"q": "asym"}] + [{"q": "word", "w": w["s"]} for w in inp["words"]]
+    if isinstance(obs, dict) and "vals" in obs:
+        # the model's `Rep.elements` on the list the implementation was given (the words whose single evaluation succeeded)
+        ok = [w["s"] for w, v in zip(inp["words"], obs["vals"]) if not H.exc_name(v)]
+        if ok:
+            q.append({"q": "elements", "ws": ok})
+    spec.update(op="c05.run", q=q)
     return [spec]
 
 
@@ -215,6 +221,13 @@ def judge_rep(inp, obs, lr):
         for (m, b), v in zip(good, obs["elements"]):
             if not H.mclose(v, m, b):
                 return {"expected": m.tolist(), "observed": v, "tags": {"what": "elements value"}}
+        # the model's own `elements(words)` (one call on the whole list) against the implementation's
+        me = qs[2 + len(inp["words"])] if len(qs) > 2 + len(inp["words"]) else None
+        if me is None or "err" in me or len(me["ok"]) != len(obs["elements"]):
+            return {"expected": me, "observed": "elements(words) returned %d matrices" % len(obs["elements"]), "tags": {"what": "elements (model list)"}}
+        for mm, (m, b), v in zip(me["ok"], good, obs["elements"]):
+            if not H.mclose(v, H.decm(mm), b):
+                return {"expected": mm, "observed": v, "tags": {"what": "elements value (model list)"}}
     return None
 
 
